@@ -244,10 +244,7 @@ def gen_trace(ctx, h1, work):
             if flush:
                 keys.append("flush=%d" % rng.randrange(1, 1 << 20))
             model.append("lzma2 %d %d %d %d %s" % (o["lc"], o["lp"], o["pb"], o["dict"], prefix))
-            # the decoder model of C03 is slow on uncompressed LZMA2 chunks (long incompressible runs): keep those out
-            gk = keys[0].split("=")[1].split(",")[0]
-            if gk not in ("rnd", "inc") or size <= 3000:
-                model.append("dec2 %d %s" % (o["dict"], prefix))
+            model.append("dec2 %d %s" % (o["dict"], prefix))
         elif kind == "lzma1":
             eopm = 1
             if rng.random() < 0.25:
